@@ -1193,6 +1193,17 @@ def vcmp(e, a, b):
         return vcmp(e[1], a[0], b[0]) or vcmp(e[2], a[1], b[1])
     raise ValueError(e)
 
+def mutate_same_len(sh, v):
+    """a different value occupying exactly the same slots (same lengths everywhere), if there is one"""
+    k = sh[0]
+    if k == 'n': return v if sh[1] == 'unit' else v ^ 1
+    if k == 'str': return ([v[0] ^ 1] + v[1:]) if v and v[0] < 0x80 else v
+    if k == 'list': return (v[:-1] + [mutate_same_len(sh[1], v[-1])]) if v else v
+    if k == 'opt': return None if v is None else ('S', mutate_same_len(sh[1], v[1]))
+    if k == 'res': return (v[0], mutate_same_len(sh[1] if v[0] == 'O' else sh[2], v[1]))
+    if k == 'tup': return [mutate_same_len(sh[1][0], v[0])] + list(v[1:])
+    return v
+
 def c15(ctx):
     res = Result()
     res.rule = ('comparable entries (slices of strings / owned bytes / integers, nested slices, options, results, tuples, '
@@ -1228,6 +1239,12 @@ def c15(ctx):
                         ops.append(('cmp', 0, i, ctx.rng.random() < 0.5, ctx.rng.choice([0, 1]), j, ctx.rng.random() < 0.5))
             cases.append((name, ops)); note_case(res, name, ops)
             res.nontrivial.add(name + ';' + ';'.join(op_str(o) for o in ops))
+            # two regions whose items occupy the same slots but differ in content: region-backed on both sides
+            ops = [('push', 0, 0, v) for v in dom] + [('push', 1, 0, mutate_same_len(sh, v)) for v in dom]
+            for i in range(m):
+                ops.append(('cmp', 0, i, False, 1, i, False))
+                ops.append(('cmp', 1, i, False, 0, i, ctx.rng.random() < 0.3))
+            cases.append((name, ops)); note_case(res, name, ops)
     def clause_for(e):
         def clause(t, op, g, ref, sc):
             if op[0] != 'cmp' or not g or not g[0].startswith('v='): return None
